@@ -53,7 +53,7 @@ def slices(tier):
         dict(MaxE="3" if big else "2", MaxG="3" if big else "2", PX="2", PY="1", ELabels=S(q("car")), GLabels=S(q("car")), Frames="{0}",
              PolicySet=S(q("DEFAULT")), TargetSets=S('<<"car">>'), RadiusSets="{<<>>, <<<<3,2>>>>, <<<<2,1>>>>}", ModeSet=DIST_MODES,
              FpvalSet="{FALSE}", Sample="0"),
-        ("3d", "2d", "3d_derived"),
+        ("3d", "2d", "3d_derived", "2d_tl"),
     )
     sl["A_iou"] = (
         dict(MaxE="2", MaxG="3" if big else "2", PX="3" if big else "2", PY="1", ELabels=S(q("car")), GLabels=S(q("car")), Frames="{0}",
@@ -73,7 +73,7 @@ def slices(tier):
         dict(MaxE="2", MaxG="2", PX="1", PY="0", ELabels=S(q("car"), q("unknown")), GLabels=S(q("car"), q("false_positive")),
              Frames="{0, 1}", PolicySet=S(q("DEFAULT"), q("ALLOW_UNKNOWN")) if big else S(q("DEFAULT")), TargetSets=S(T2), RadiusSets="{<<>>, <<<<3,2>>, <<3,2>>>>}",
              ModeSet=S(q("center")), FpvalSet="{TRUE, FALSE}", Sample="0"),
-        ("3d", "2d"),
+        ("3d", "2d", "2d_tl"),
     )
     # D: random subset of the big product space (3x3, 2-D lattice, all labels, policies, modes)
     n = "10000" if big else "600"
@@ -115,6 +115,10 @@ def collect(dump_path):
     return groups, nstates
 
 
+# traffic-light rendering of the abstract labels for 2-D ROI objects (traffic-light detection with boxes is matched geometrically, like any other)
+TL_OF = {"car": "green", "pedestrian": "red", "bus": "yellow", "bicycle": "red_left", "unknown": "unknown", "false_positive": "false_positive"}
+
+
 def render(sc, kind):
     """real objects for scene `sc`"""
     from ..build import obj2d, obj3d
@@ -131,7 +135,8 @@ def render(sc, kind):
             o = obj3d((x, y, 0), label=sc["elab"][i], score=0.5 + 0.01 * i, frame="map" if sc["efr"][i] == 1 else "base_link",
                       ego=_EGO0, uuid="e%d" % i, vid=i + 1)
         else:
-            o = obj2d((x, y), label=sc["elab"][i], score=0.5 + 0.01 * i, cam=sc["efr"][i], uuid="e%d" % i, vid=i + 1)
+            tl = kind == "2d_tl"
+            o = obj2d((x, y), label=TL_OF[sc["elab"][i]] if tl else sc["elab"][i], score=0.5 + 0.01 * i, cam=sc["efr"][i], uuid="e%d" % i, vid=i + 1, tl=tl)
         ests.append(o)
     for j in range(sc["ng"]):
         x, y = sc["gpos"][j]
@@ -139,7 +144,8 @@ def render(sc, kind):
             o = obj3d((x, y, 0), label=sc["glab"][j], score=1.0, frame="map" if sc["gfr"][j] == 1 else "base_link", ego=_EGO0,
                       uuid="g%d" % j, vid=j + 1)
         else:
-            o = obj2d((x, y), label=sc["glab"][j], score=1.0, cam=sc["gfr"][j], uuid="g%d" % j, vid=j + 1)
+            tl = kind == "2d_tl"
+            o = obj2d((x, y), label=TL_OF[sc["glab"][j]] if tl else sc["glab"][j], score=1.0, cam=sc["gfr"][j], uuid="g%d" % j, vid=j + 1, tl=tl)
         gts.append(o)
     return ests, gts
 
@@ -164,7 +170,9 @@ def call_matcher(sc, kind, ests, gts):
         task = EvaluationTask.FP_VALIDATION if sc["fpval"] else EvaluationTask.DETECTION
     else:
         task = EvaluationTask.FP_VALIDATION2D if sc["fpval"] else EvaluationTask.DETECTION2D
-    targets = [AW[t] for t in sc["targets"]]
+    from ..build import TL
+
+    targets = [TL[TL_OF[t]] for t in sc["targets"]] if kind == "2d_tl" else [AW[t] for t in sc["targets"]]
     thr = [n / d for (n, d) in sc["radius"]] if sc["radius"] else None
     return get_object_results(
         evaluation_task=task,
@@ -192,7 +200,7 @@ def replay_one(arg):
     out = []
     n = 0
     for kind in kinds:
-        if kind == "2d" and sc["mode"] in ("plane", "iou3d"):
+        if kind.startswith("2d") and sc["mode"] in ("plane", "iou3d"):
             continue
         if kind.startswith("3d") and sc["mode"] != "center" and any(f == 1 for f in list(sc["efr"])[: sc["ne"]] + list(sc["gfr"])[: sc["ng"]]):
             continue
